@@ -8,6 +8,7 @@ import EaselModel.Sqio.EmblTotal
 import EaselModel.Sqio.EmblTotalAll
 import EaselModel.Sqio.MsaSeqMode
 import EaselModel.Sqio.MsaSeqWindow
+import EaselModel.Sqio.MsaSeqBlock
 /-! # C02 — sequence-file input is total: any bytes give a normal outcome
 
 Property theorems only (proofs are glue on `Sqio/Refine.lean`, `Sqio/NoFault.lean`).
@@ -362,6 +363,37 @@ example :
        let r2 := MsaSeq.readWindow r1.1 r1.2.1 0 100
        let r3 := MsaSeq.readWindow r2.1 r2.2.1 0 (-3)
        r2.2.2 = .eod ∧ r3.2.2 = .ok ∧ r3.2.1.seq = #[2, 3, 0] ∧ r3.2.1.start = 10 ∧ r3.2.1.end_ = 8 ∧ r3.2.1.C = 0 ∧ r3.2.1.W = 3) := by
+  decide +kernel
+
+open EaselModel.Sqio.MsaSeq EaselModel.Msafile in
+/-- **`sqascii_ReadBlock` (whole-sequence mode) on an alignment file is total, for every byte string**: from a handle satisfying the
+    invariant and a block whose slots are `ESL_SQ`s of the handle's mode (`esl_sq_CreateBlock` / `esl_sq_CreateDigitalBlock`): `eslOK`
+    with a complete block, `eslEOF` (nothing could be read), or `eslEFORMAT` with a message - never a fault, no exception, in any of the
+    `sqascii_Read` calls it makes; slots and handle invariant are kept (so the statement holds for every series of blocks). -/
+theorem msa_readBlock_total (h : MsaH) (b : Block) (maxSeq : Int) (hi : Inv h) (hm : ModeOk h.o) (hidx : 0 ≤ h.idx)
+    (hs : SlotsOk h.o b.list) (hls : b.listSize ≤ b.list.size) :
+    Inv (MsaSeq.readBlock h b maxSeq).1 ∧ (MsaSeq.readBlock h b maxSeq).1.o = h.o ∧ (MsaSeq.readBlock h b maxSeq).1.exc = h.exc ∧
+    0 ≤ (MsaSeq.readBlock h b maxSeq).1.idx ∧ SlotsOk h.o (MsaSeq.readBlock h b maxSeq).2.1.list ∧
+    (((MsaSeq.readBlock h b maxSeq).2.2 = .ok ∧ (MsaSeq.readBlock h b maxSeq).2.1.complete = true) ∨ (MsaSeq.readBlock h b maxSeq).2.2 = .eof ∨
+     ((MsaSeq.readBlock h b maxSeq).2.2 = .eformat ∧ (MsaSeq.readBlock h b maxSeq).1.haveErr = true)) :=
+  MsaSeq.readBlock_total h b maxSeq hi hm hidx hs hls
+
+open EaselModel.Sqio.MsaSeq EaselModel.Msafile in
+/-- **`esl_sqfile_GuessAlphabet` on an alignment file is total** (it hands the file to `esl_msafile_GuessAlphabet`, which looks at the
+    lines not yet read and keeps the read position): an alphabet type or `eslENOALPHABET`, never a fault - for every handle, i.e. every
+    format, name width and remaining input -/
+theorem msa_guessAlphabet_total (h : MsaH) :
+    (∃ t, guessAlphabet h.o.fmt h.o.namewidth h.lines = .ok t) ∨ guessAlphabet h.o.fmt h.o.namewidth h.lines = .fail :=
+  MsaSeq.guessAlphabet_total h
+
+open EaselModel.Sqio.MsaSeq EaselModel.Msafile in
+/-- non-vacuity: a block of two fresh RNA slots over the two-row Stockholm file: both rows come back dealigned, the block is complete -/
+example :
+    let file : Sqio.Bytes := (str "# STOCKHOLM 1.0\ns1 AC-GU\ns2 -CCC-\n//\n").toArray
+    ∃ h, (openMsa file (str "t.sto") (.decl .stockholm) 2).1 = some h ∧
+      (MsaSeq.readBlock h { listSize := 2, list := #[freshSq 2, freshSq 2] } (-1)).2.2 = .ok ∧
+      (MsaSeq.readBlock h { listSize := 2, list := #[freshSq 2, freshSq 2] } (-1)).2.1.count = 2 ∧
+      ((MsaSeq.readBlock h { listSize := 2, list := #[freshSq 2, freshSq 2] } (-1)).2.1.list.map (·.seq)) = #[#[0, 1, 2, 3], #[1, 1, 1]] := by
   decide +kernel
 
 open EaselModel.Sqio.MsaSeq in
